@@ -468,7 +468,7 @@ def _hookable(ctx, pm, hf):
 
 
 def _annassign(ctx):
-    ctx.rule('C05.R5', 'exhaustive over target kind ∈ {Name, Attribute, Subscript} × claw_is_pep526 × has-value × '
+    ctx.rule('C05.R5', 'exhaustive over target kind ∈ {Name, Attribute (parent a Name / Attribute / Subscript / Call), Subscript} × claw_is_pep526 × has-value × '
              'class-scope, by interpreting visit_AnnAssign on abstract nodes: value ∧ option ∧ ¬class-scope ⇒ the '
              'result is [node, <die_if_unbearable call>]; otherwise the node is returned unchanged')
     from sa.gen import AConf
@@ -506,7 +506,8 @@ def _annassign(ctx):
         pass
     n = 0
     try:
-        for tkind in ('Name', 'Attribute', 'Subscript'):
+        # target kinds of the grammar; an attribute target is taken with every kind of parent expression
+        for tkind in ('Name', 'Attribute', 'Attribute(of Attribute)', 'Attribute(of Subscript)', 'Attribute(of Call)', 'Subscript'):
             for opt in (True, False):
                 for has_value in (True, False):
                     for cls_scope in (True, False):
@@ -520,7 +521,10 @@ def _annassign(ctx):
                         s.generic_visit = lambda node: node
                         s.map_node_attr_imported_to_assigned = lambda **k: None
                         s._make_node_keyword_conf = lambda **k: _ANode('keyword')
-                        tgt = _ANode(tkind, id='v', attr='a', value=_ANode('Name', id='o'), slice=_ANode('Constant'))
+                        pk = tkind[len('Attribute(of '):-1] if '(' in tkind else 'Name'
+                        par = _ANode(pk, id='o', attr='b', value=_ANode('Name', id='p'), slice=_ANode('Constant'),
+                                     func=_ANode('Name', id='f'), args=[], keywords=[])
+                        tgt = _ANode(tkind.split('(')[0], id='v', attr='a', value=par, slice=_ANode('Constant'))
                         node = _ANode('AnnAssign', target=tgt, annotation=_ANode('Name', id='int'),
                                       value=_ANode('Constant') if has_value else None)
                         del made[:]
@@ -546,4 +550,4 @@ def _annassign(ctx):
         F.isinstance_hook = saved_inst
         F.ext_stubs.clear()
         F.ext_stubs.update(saved_ext)
-    ctx.floor('C05.R5', n, 24, 'target kind × option × value × scope cases')
+    ctx.floor('C05.R5', n, 48, 'target kind × option × value × scope cases')
